@@ -168,9 +168,14 @@ def loaded_obj(f, p):
     return p.exit[1] if f.kind == "classmethod" else SELF
 
 
-def check_footer(prog, rep, family, wctx, wfmt, wslots, rctx, rname):
+def check_footer(prog, rep, family, wctx, wfmt, wslots, rctx, rname, loading_only=False):
     """(a)+(b): every persisted field is restored from its slot on every path of the reader"""
     f, ps = reader_paths(prog, rctx, rname)
+    if loading_only:
+        # a constructor: only its loading paths are readers (those on which some field of the object ends up read from the input)
+        ps = [p for p in ps if any(n[0] in ("unp", "unpall", "iterunp") for (b, _), v in p.fields.items() if b == SELF for n in walk(v))]
+        if not ps:
+            return
     rep.analysed(f, rctx, len(ps))
     where = f"{rctx}.{rname}"
     if not ps:
@@ -534,6 +539,8 @@ def check(prog, rep, tier):
         for (rc, rn) in rd:
             check_footer(prog, rep, "countmin", "CountMinSketch", wfmt, wslots, rc, rn)
             check_payload(prog, rep, "countmin", rc, rn, "_bins")
+    for rc_ in ("CountMinSketch", "HeavyHitters", "StreamThreshold", "CountMeanSketch", "CountMeanMinSketch"):
+        check_footer(prog, rep, "countmin", "CountMinSketch", wfmt, wslots, rc_, "__init__", loading_only=True)
     # derived geometry reported after a load agrees with what the constructor derives from the same width / depth
     rep.rule("C05.derived-geometry", "confidence and error rate of a loaded sketch are derived from its width / depth as the constructor does", floor=1)
     from ..expr import mapx
@@ -703,6 +710,8 @@ def check(prog, rep, tier):
             continue
         wfmt, wslots = foot[1], slot_fields(foot)
         samples[wctx] = {"format": wfmt, "slots": wslots}
+        # the file-path channel is the constructor: what it does AFTER loading must not undo what was restored
+        check_footer(prog, rep, "cuckoo", wctx, wfmt, wslots, wctx, "__init__", loading_only=True)
         for rn in ("_load", "frombytes"):
             check_footer(prog, rep, "cuckoo", wctx, wfmt, wslots, wctx, rn)
             f, ps = reader_paths(prog, wctx, rn)
